@@ -370,7 +370,23 @@ func c10(ctx *Ctx) {
 			}
 		}
 	}
+	// one definition of another document reached three times: as a member of an allOf (extension-less reference), by a plain reference
+	// with the extension written out, and by a plain extension-less reference - one Go type shared by all referrers
+	{
+		common := J{"$id": "https://example.com/common", "type": "object", "properties": J{"z": J{"type": "string"}},
+			"$defs": J{"Base": J{"type": "object", "properties": J{"id": J{"type": "integer", "minimum": 1}}, "required": A{"id"}}}}
+		main := J{"$id": "https://example.com/main", "type": "object", "properties": J{
+			"first":  J{"allOf": A{J{"$ref": "common#/$defs/Base"}, J{"type": "object", "properties": J{"x": J{"type": "string"}}}}},
+			"second": J{"$ref": "common.json#/$defs/Base"}, "third": J{"$ref": "common#/$defs/Base"}}}
+		cross = append(cross, SCase{ID: "C10/E/one-definition-three-referrers", Schema: main, Cfg: baseCfg(), Extra: []genlab.File{{Path: "common.json", Content: space.Text(common)}},
+			Axes: map[string]string{"pos": "cross-file-member", "leaf": "three-referrers", "composite": "allOf"}})
+	}
 	runBehaviour(ctx, behaviour{Name: "cross-file-member", Cases: cross, Devs: c10Devs, K: 1,
+		OnProgram: func(sc *SCase, p *batch.Program) {
+			if sc.Axes["leaf"] == "three-referrers" {
+				c10OneType(ctx, sc, p, []string{"Base"})
+			}
+		},
 		OnGenErr: func(sc *SCase, msg string) {
 			ctx.Run.Violation("cross-file-member-not-generated", fmt.Sprintf("%s: %s", sc.ID, firstLine(msg)), map[string]any{"kind": "gen", "files": sc.Case().Files, "args": sc.Case().Args, "cfg": sc.Case().Cfg})
 		}})
